@@ -128,6 +128,7 @@ class RemoteWorker(Worker, metaclass=RemoteWorkerMeta):
                 pass
 
         self._startup_sync = threading.Event()
+        self._startup_error = None # set by the frontend thread if the handshake with the server fails
         self._remote_side = False # tells us whether the class exists on the remote end
         self._is_backend = False # True if a class is accessed from the _run_backend
         self._from_remote_parent = False # used only to detect payloads passed to __setstate__ which were received from the remote part
@@ -379,6 +380,10 @@ class RemoteWorker(Worker, metaclass=RemoteWorkerMeta):
         self._dead = False
         logger.debug('Waiting for the frontend thread to notify that everything is up and running...')
         self._startup_sync.wait()
+        if self._startup_error is not None:
+            self._child.join()
+            self._dead = True
+            raise self._startup_error
         logger.details('Child created successfully, continuing with the main thread')
 
     # Parent-side, helper thread managing network communication and fetching results from the child
@@ -389,22 +394,30 @@ class RemoteWorker(Worker, metaclass=RemoteWorkerMeta):
         if self._set_names:
             setthreadtitle(f'{self.name} (remote front)', self)
 
-        logger.debug('Sending self to the server to initialize backend...')
-        send_msg(self._socket, (self._context, True), comment='data: header')
-        send_msg(self._socket, self, comment='data: initial remote worker') # this will spawn a backend at the remote side, via __getstate__(remote=True) and __setstate__
+        try:
+            logger.debug('Sending self to the server to initialize backend...')
+            send_msg(self._socket, (self._context, True), comment='data: header')
+            send_msg(self._socket, self, comment='data: initial remote worker') # this will spawn a backend at the remote side, via __getstate__(remote=True) and __setstate__
 
-        logger.debug('Waiting for control socket address from the child...')
-        control_addr = recv_msg(self._socket, comment='control socket addr')
+            logger.debug('Waiting for control socket address from the child...')
+            control_addr = recv_msg(self._socket, comment='control socket addr')
 
-        logger.debug('Control socket address from the child: {}, connecting...', control_addr)
-        self._ctrl_sock = socket.socket(socket.AF_INET, socket.SOCK_STREAM)
-        set_keepalive(self._ctrl_sock, True)
-        self._ctrl_sock.connect(control_addr)
-        logger.debug('Control sockets connected: {} <==> {}', self._ctrl_sock.getsockname(), control_addr)
+            logger.debug('Control socket address from the child: {}, connecting...', control_addr)
+            self._ctrl_sock = socket.socket(socket.AF_INET, socket.SOCK_STREAM)
+            set_keepalive(self._ctrl_sock, True)
+            self._ctrl_sock.connect(control_addr)
+            logger.debug('Control sockets connected: {} <==> {}', self._ctrl_sock.getsockname(), control_addr)
 
-        self._host, self._pid, self._tid, self._ident = recv_msg(self._ctrl_sock, comment='ctrl: runtime info')
-        logger.debug('Received info package from the backend, signalling the main thread that everything is fine')
-        self._startup_sync.set()
+            self._host, self._pid, self._tid, self._ident = recv_msg(self._ctrl_sock, comment='ctrl: runtime info')
+            logger.debug('Received info package from the backend, signalling the main thread that everything is fine')
+        except Exception as e:
+            # the handshake failed: let the constructor (blocked in _start) raise instead of waiting forever
+            logger.debug('Handshake with the server failed: {}', e)
+            self._startup_error = e
+            self._socket.close()
+            return
+        finally:
+            self._startup_sync.set()
         self._fetch_results()
         logger.debug('Closing down frontend-side socket')
         self._socket.close()
